@@ -199,4 +199,180 @@ Proof.
       rewrite cnt_before by lia. lia.
 Qed.
 
+(** ** (3) the run-length loop lists the segments one by one *)
+
+Lemma expand_snoc es e : expand (es ++ [e]) = expand es ++ expandEntry (e_t e) (e_d e) (Z.to_nat (e_r e + 1)).
+Proof. unfold expand. rewrite flat_map_app. cbn [flat_map]. now rewrite app_nil_r. Qed.
+
+Lemma map_td_seqZ_snoc a k : map (td r) (seqZ a (Datatypes.S k)) = td r a :: map (td r) (seqZ (a + 1) k).
+Proof. reflexivity. Qed.
+
+(** After segment [b] (entry [cur] ends at [E b], duration [d] of [b], lsi = [b]) the loop run
+    for [k] more segments appends exactly [b+1 .. b+k] and leaves lsi = [b+k]. *)
+Lemma tlLoop_spec k : forall b d t cur acc ls ld,
+  0 <= b -> d = E r b - S r b -> ls = S r b -> ld = d ->
+  e_d cur = d -> 0 <= e_r cur -> e_t cur + (e_r cur + 1) * d = E r b ->
+  snd (tlLoop r k (b + 1) d t cur acc ls ld b)
+    = (S r (b + Z.of_nat k), E r (b + Z.of_nat k) - S r (b + Z.of_nat k), b + Z.of_nat k) /\
+  expand (fst (tlLoop r k (b + 1) d t cur acc ls ld b))
+    = expand (rev (cur :: acc)) ++ map (td r) (seqZ (b + 1) k).
+Proof.
+  induction k as [|k IH]; intros b d t cur acc ls ld Hb Hd Hls Hld Hcd Hcr Hct.
+  - cbn [tlLoop fst snd seqZ map]. rewrite Z.add_0_r, app_nil_r. subst. split; reflexivity.
+  - cbn [tlLoop]. rewrite sdur_SE.
+    pose proof (S_E_contiguous r loopMS W b Hb) as Hcont.
+    rewrite Nat2Z.inj_succ. replace (b + Z.succ (Z.of_nat k)) with (b + 1 + Z.of_nat k) by lia.
+    rewrite map_td_seqZ_snoc.
+    destruct (E r (b + 1) - S r (b + 1) =? d) eqn:Ed.
+    + specialize (IH (b + 1) d t {| e_t := e_t cur; e_d := e_d cur; e_r := e_r cur + 1 |} acc (ls + d) ld
+                     ltac:(lia) ltac:(lia) ltac:(lia) Hld Hcd ltac:(cbn [e_r]; lia) ltac:(cbn [e_t e_r]; lia)).
+      destruct IH as [IH1 IH2]. split; [exact IH1|]. rewrite IH2.
+      cbn [rev]. rewrite !expand_snoc. cbn [e_t e_d e_r]. rewrite <- !app_assoc. f_equal.
+      replace (Z.to_nat (e_r cur + 1 + 1)) with (Datatypes.S (Z.to_nat (e_r cur + 1))) by lia.
+      rewrite expandEntry_snoc. rewrite <- app_assoc. f_equal. cbn [app]. f_equal.
+      unfold td. f_equal; lia.
+    + specialize (IH (b + 1) (E r (b + 1) - S r (b + 1)) t
+                     {| e_t := ls + d; e_d := E r (b + 1) - S r (b + 1); e_r := 0 |} (cur :: acc) (ls + d)
+                     (E r (b + 1) - S r (b + 1))
+                     ltac:(lia) ltac:(lia) ltac:(lia) eq_refl eq_refl ltac:(cbn [e_r]; lia)
+                     ltac:(cbn [e_t e_r]; lia)).
+      destruct IH as [IH1 IH2]. split; [exact IH1|]. rewrite IH2.
+      change (rev ({| e_t := ls + d; e_d := E r (b + 1) - S r (b + 1); e_r := 0 |} :: cur :: acc))
+        with (rev (cur :: acc) ++ [{| e_t := ls + d; e_d := E r (b + 1) - S r (b + 1); e_r := 0 |}]).
+      rewrite expand_snoc. cbn [e_t e_d e_r]. rewrite <- app_assoc. f_equal.
+      change (Z.to_nat (0 + 1)) with 1%nat. cbn [expandEntry app]. f_equal.
+      unfold td. f_equal. lia.
+Qed.
+
+(** ** calcWrapTimes splits an instant into whole loops and the rest *)
+
+Lemma calcWrapTimes_spec c now tsbdMS : startS c * 1000 <= now ->
+  let wt := calcWrapTimes loopMS c now tsbdMS in
+  let ws := winStartMS c now tsbdMS in
+  startWraps wt = (ws - startS c * 1000) / loopMS /\
+  startRelMS wt = (ws - startS c * 1000) mod loopMS /\
+  nowWraps wt = (now - startS c * 1000) / loopMS /\
+  nowRelMS wt = (now - startS c * 1000) mod loopMS.
+Proof.
+  intros Hnow. pose proof loopMS_pos as HL. cbv zeta. unfold calcWrapTimes, winStartMS.
+  cbn [startWraps startRelMS nowWraps nowRelMS].
+  assert (Hws : (if now - tsbdMS <? startS c * 1000 then startS c * 1000 else now - tsbdMS)
+                = Z.max (now - tsbdMS) (startS c * 1000)).
+  { destruct (now - tsbdMS <? startS c * 1000) eqn:E0; lia. }
+  rewrite Hws. set (ws := Z.max (now - tsbdMS) (startS c * 1000)).
+  assert (startS c * 1000 <= ws) by lia.
+  rewrite !Z.quot_div_nonneg by lia.
+  repeat split; try reflexivity.
+  - rewrite (Z.mod_eq (ws - startS c * 1000) loopMS) by lia. lia.
+  - rewrite (Z.mod_eq (now - startS c * 1000) loopMS) by lia. lia.
+Qed.
+
+(** [y] ms after the start = [y / loopMS] whole loops of [D] ticks + the rest, converted once *)
+Lemma tick_split y atoMS : 0 <= y -> 0 <= atoMS ->
+  ((y + atoMS) * ts r) / 1000 = (y / loopMS) * D + Z.quot ((y mod loopMS + atoMS) * ts r) 1000.
+Proof.
+  intros Hy Ha. pose proof loopMS_pos as HL. pose proof Hts as Hts'.
+  pose proof (Z.div_mod y loopMS ltac:(lia)) as Hdm. pose proof (Z.mod_pos_bound y loopMS HL) as Hm.
+  rewrite Z.quot_div_nonneg by nia.
+  set (q := y / loopMS) in *. set (m := y mod loopMS) in *. clearbody q m. subst y.
+  assert (Hq : q * D * 1000 = q * loopMS * ts r).
+  { replace (q * D * 1000) with (q * (1000 * D)) by ring. rewrite (wf_loop _ _ W). ring. }
+  replace ((loopMS * q + m + atoMS) * ts r) with (q * D * 1000 + (m + atoMS) * ts r) by lia.
+  rewrite Z.div_add_l by lia. reflexivity.
+Qed.
+
+Lemma tick_nonneg c atoMS x : startS c * 1000 <= x -> 0 <= atoMS -> 0 <= tick r c atoMS x.
+Proof. intros. unfold tick. pose proof Hts. apply Z.div_pos; [nia|lia]. Qed.
+
+Lemma tick_mono c atoMS x1 x2 : x1 <= x2 -> tick r c atoMS x1 <= tick r c atoMS x2.
+Proof.
+  intros H. unfold tick. pose proof Hts. apply Z.div_le_mono; [lia|].
+  apply Z.mul_le_mono_nonneg_r; lia.
+Qed.
+
+(** the edge computed from the (wraps, rest) pair of the instant [x] is [lastFin] at [x] *)
+Lemma edge_tick c atoMS x :
+  startS c * 1000 <= x -> 0 <= atoMS -> atoMS * ts r <= 1000 * en (segAt r 0) ->
+  let '(w, i) := edgeIdx r ((x - startS c * 1000) / loopMS) ((x - startS c * 1000) mod loopMS) atoMS in
+  0 <= i < N /\ w * N + i = lastFin r (tick r c atoMS x).
+Proof.
+  intros Hx Ha Ha1. pose proof loopMS_pos as HL.
+  unfold tick. rewrite (tick_split (x - startS c * 1000) atoMS) by lia.
+  apply edgeIdx_spec; [apply Z.mod_pos_bound; lia|lia|lia].
+Qed.
+
+(** ** (4) the timeline of the MPD is the window [first, last] *)
+
+Theorem timeline_is_window c now tsbdMS atoMS :
+  startS c * 1000 <= now -> 0 <= tsbdMS -> 0 <= atoMS -> atoMS * ts r <= 1000 * en (segAt r 0) ->
+  let se := generateTimelineEntries r (calcWrapTimes loopMS c now tsbdMS) atoMS in
+  let last := window_last r c atoMS now in
+  let first := window_first r c atoMS now tsbdMS in
+  (last < 0 -> se_startNr se = -1 /\ se_entries se = []) /\
+  (0 <= last ->
+     first <= last /\ se_startNr se = first /\
+     expand (se_entries se) = window_td r first last /\
+     se_lsi_nr se = last /\ se_lsi_start se = S r last /\ se_lsi_dur se = E r last - S r last).
+Proof.
+  intros Hnow Htsbd Ha Ha1. cbv zeta. pose proof HN as HN'.
+  unfold window_last, window_first.
+  destruct (calcWrapTimes_spec c now tsbdMS Hnow) as (Hw1 & Hw2 & Hw3 & Hw4).
+  set (ws := winStartMS c now tsbdMS) in *.
+  assert (Hws : startS c * 1000 <= ws <= now) by (unfold ws, winStartMS; lia).
+  pose proof (edge_tick c atoMS ws ltac:(lia) Ha Ha1) as Hs.
+  pose proof (edge_tick c atoMS now Hnow Ha Ha1) as Hn.
+  pose proof (lastFin_mono (tick r c atoMS ws) (tick r c atoMS now)
+                ltac:(split; [apply tick_nonneg; lia|apply tick_mono; lia])) as Hmono.
+  destruct (lastFin_spec (tick r c atoMS ws) ltac:(apply tick_nonneg; lia)) as (Hlfs & _ & _).
+  unfold generateTimelineEntries. rewrite Hw1, Hw2, Hw3, Hw4.
+  destruct (edgeIdx r ((ws - startS c * 1000) / loopMS) ((ws - startS c * 1000) mod loopMS) atoMS) as [sw0 si0].
+  destruct (edgeIdx r ((now - startS c * 1000) / loopMS) ((now - startS c * 1000) mod loopMS) atoMS) as [nw ni].
+  destruct Hs as [Hsi Hse]. destruct Hn as [Hni Hne].
+  set (lfs := lastFin r (tick r c atoMS ws)) in *. set (lfn := lastFin r (tick r c atoMS now)) in *.
+  clearbody lfs lfn.
+  assert (Hfirst : exists sw si, (if sw0 <? 0 then (0, 0) else (sw0, si0)) = (sw, si) /\
+                                 0 <= si < N /\ sw * N + si = Z.max 0 lfs).
+  { destruct (sw0 <? 0) eqn:Esw.
+    - exists 0, 0. split; [reflexivity|]. split; [lia|]. nia.
+    - exists sw0, si0. split; [reflexivity|]. split; [lia|]. nia. }
+  destruct Hfirst as (sw & si & -> & Hsi' & Hfe).
+  destruct (nw <? 0) eqn:Enw.
+  - split; [intros _; cbn [se_startNr se_entries]; split; reflexivity | intros; nia].
+  - assert (Hlast : 0 <= lfn) by nia. split; [lia|]. intros _.
+    set (first := Z.max 0 lfs) in *.
+    assert (Hfl : first <= lfn) by lia.
+    replace (nw * N + ni) with lfn by lia. rewrite Hfe.
+    assert (Ht : D * sw + st (segAt r si) = S r first).
+    { rewrite <- Hfe, S_at by lia. lia. }
+    assert (Hd : sdur (segAt r si) = E r first - S r first).
+    { rewrite <- Hfe, S_at, E_at by lia. unfold sdur. lia. }
+    rewrite Ht, Hd.
+    pose proof (tlLoop_spec (Z.to_nat (lfn - first)) first (E r first - S r first) (S r first)
+                  {| e_t := S r first; e_d := E r first - S r first; e_r := 0 |} []
+                  (S r first) (E r first - S r first)
+                  ltac:(lia) eq_refl eq_refl eq_refl eq_refl ltac:(cbn [e_r]; lia)
+                  ltac:(cbn [e_t e_r]; lia)) as [Hsnd Hfst].
+    destruct (tlLoop r (Z.to_nat (lfn - first)) (first + 1) (E r first - S r first) (S r first)
+                {| e_t := S r first; e_d := E r first - S r first; e_r := 0 |} []
+                (S r first) (E r first - S r first) first) as [es [[ls ld] ln]].
+    cbn [fst snd] in Hsnd, Hfst. cbn [se_startNr se_entries se_lsi_nr se_lsi_start se_lsi_dur].
+    replace (first + Z.of_nat (Z.to_nat (lfn - first))) with lfn in Hsnd by lia.
+    injection Hsnd as -> -> ->.
+    split; [exact Hfl|]. split; [reflexivity|]. split; [|repeat split; reflexivity].
+    rewrite Hfst. unfold window_td.
+    replace (Z.to_nat (lfn - first + 1)) with (Datatypes.S (Z.to_nat (lfn - first))) by lia.
+    rewrite map_td_seqZ_snoc. reflexivity.
+Qed.
+
+(** the listed (t, d) pairs have neither gap nor overlap *)
+Lemma window_td_contiguous first k : 0 <= first -> td_contiguous (map (td r) (seqZ first k)).
+Proof.
+  revert first; induction k as [|k IH]; intros first Hf; [exact I|].
+  destruct k as [|k]; [exact I|].
+  change (td_contiguous (td r first :: td r (first + 1) :: map (td r) (seqZ (first + 1 + 1) k))).
+  split.
+  - unfold td. cbn [fst snd]. rewrite (S_E_contiguous r loopMS W first Hf). lia.
+  - apply (IH (first + 1)). lia.
+Qed.
+
 End Win.
